@@ -50,6 +50,20 @@ pub fn install_panic_hook() {
     });
 }
 
+pub fn quiet(on: bool) {
+    QUIET_PANICS.with(|q| *q.borrow_mut() = on);
+}
+
+pub fn take_panic() -> String {
+    LAST_PANIC
+        .with(|p| p.borrow_mut().take())
+        .unwrap_or_else(|| "<unknown panic>".into())
+}
+
+pub fn take_output() -> Vec<String> {
+    OUTPUT.with(|o| std::mem::take(&mut *o.borrow_mut()))
+}
+
 fn capture_print(vm: &mut Vm, num_args: usize) -> Result<Value, Error> {
     if num_args != 1 {
         return Err(Error::with_message(
